@@ -56,7 +56,7 @@ GROUP_DOC = {1: "xbitset_iterator over xdynamic_bitset<uint8_t> (+ std::reverse_
 # largest container size per size class: chosen so that block boundaries of the bit storages are crossed
 NMAX = {
     "quick": {"plain": 8, "u8": 18, "u16": 18, "u32": 12, "u64": 12},
-    "thorough": {"plain": 64, "u8": 96, "u16": 96, "u32": 132, "u64": 136},
+    "thorough": {"plain": 64, "u8": 96, "u16": 96, "u32": 132, "u64": 200},
 }
 # the additional builds of the thorough tier (other language levels, second compiler) re-execute the same law instances up to these sizes
 NMAX_SECONDARY = {"plain": 24, "u8": 40, "u16": 40, "u32": 70, "u64": 70}
@@ -126,7 +126,7 @@ def merge(ctx, sub, primary):
 
 def shards(N):
     """cut the sizes 0..N into contiguous ranges of roughly equal cost (a size n costs about (n+1)^4)"""
-    k = 1 if N <= 48 else (2 if N <= 100 else 4)
+    k = 1 if N <= 48 else (2 if N <= 100 else (4 if N <= 150 else 8))
     total = sum((n + 1) ** 4 for n in range(N + 1))
     out, lo, acc = [], 0, 0
     for n in range(N + 1):
